@@ -34,6 +34,8 @@ var c20DropAllow = map[string]string{
 }
 
 func runC20(c *an.Ctx) {
+	r7WriterTypestate(c, "R3")
+	r7KeepFilesPredicate(c, "R2")
 	// ---- R1 temp-file pairing.
 	nCT := 0
 	for _, fn := range c.P.ModFuncs {
